@@ -65,6 +65,7 @@
     the statement without that hypothesis is false of the faithful model. *)
 From CSS Require Import Lib.Base Model.TPM Proofs.TPM Model.BootSim Proofs.BootSim.
 From CSS Require Import Model.TPMSlices Proofs.TPMSlices Model.BootSimGen Proofs.BootSimSlices.
+From CSS Require Import Model.BootSimObjs Proofs.BootSimObjs.
 
 (** * 1. Command log *)
 
@@ -377,6 +378,105 @@ Theorem C01_evlog_digest_is_hash_of_bytes_any_boot : forall ref bytes_of H r fl 
   exists it, In it (concat fl) /\ item_cmd ref bytes_of H it (LogAdd p a dg ty evd).
 Proof. exact evlog_digest_is_hash_of_bytes_boot. Qed.
 Print Assumptions C01_evlog_digest_is_hash_of_bytes_any_boot.
+
+(** * 6. Converter objects held by several measurements; digests read after the flow
+
+    One level below sections 1-5 (Model/BootSimObjs.v): a converter is an OBJECT
+    (dataconverters.Hasher: a hash.Hash with its running state) that any number of
+    measurements, of this boot and of earlier ones, may hold -- a data object names
+    its converter by its number in the pool [pl] --; a digest is a slice of an array
+    in memory [hp], and CommandLog / EventLog keep the slices they were given.
+    [oboot r pl hp fl] is the boot; [read_cdig] / [read_edig] / [read_cmdlog] /
+    [read_evlog] are what somebody who reads the logs AFTER the boot finds there;
+    [rflow (map hs_alg pl) fl] is the flow as sections 1-5 see it (the algorithm of
+    the object in place of its number). *)
+
+(** For converter objects in any state (whatever earlier conversions or boots left
+    in them), shared by the measurements in any way, and any memory around: the
+    boot does what Model/BootSim.v says -- same TPM (PCRs, command log, event log
+    with every digest as it was extended), MeasuredData, step issues -- and the
+    Digest fields read after the boot are those digests.  The objects keep their
+    algorithms and no array that existed is written. *)
+Theorem C01_shared_converter_objects : forall ref bytes_of H r pl hp fl,
+  let o := oboot ref bytes_of H r pl hp fl in
+  let v := run_flow ref bytes_of H (boot_start r) (rflow ref (map hs_alg pl) fl) in
+  o_sim (fst o) = fst v /\ snd o = snd v /\
+  read_cdig (fst o) = digests_of (cmdlog (s_tpm (fst v))) /\
+  read_edig (fst o) = map ev_digest (evlog (s_tpm (fst v))) /\
+  map hs_alg (o_pool (fst o)) = map hs_alg pl /\ hext hp (o_heap (fst o)).
+Proof. exact oboot_is_boot. Qed.
+Print Assumptions C01_shared_converter_objects.
+
+(** Hence the command log and the event log AS READ after the boot are the logs
+    sections 1-5 speak about ... *)
+Theorem C01_logs_read_after_boot : forall ref bytes_of H r pl hp fl,
+  let o := fst (oboot ref bytes_of H r pl hp fl) in
+  let t := s_tpm (fst (run_flow ref bytes_of H (boot_start r) (rflow ref (map hs_alg pl) fl))) in
+  s_tpm (o_sim o) = t /\ read_cmdlog o = cmdlog t /\ read_evlog o = evlog t.
+Proof. exact read_logs_are_logs. Qed.
+Print Assumptions C01_logs_read_after_boot.
+
+(** ... re-executing the command log as read after the boot rebuilds the TPM ... *)
+Theorem C01_cmdlog_replay_shared_converters : forall ref bytes_of H r pl hp fl,
+  let o := fst (oboot ref bytes_of H r pl hp fl) in
+  let t := s_tpm (o_sim o) in
+  run H (start_of r) (read_cmdlog o) = t /\
+  pcrs (reexec H fresh (read_cmdlog o)) = pcrs t /\ evlog (reexec H fresh (read_cmdlog o)) = evlog t.
+Proof. exact read_cmdlog_replay. Qed.
+Print Assumptions C01_cmdlog_replay_shared_converters.
+
+(** ... and every command read there was issued by an item of the flow and carries,
+    for a measurement, the hash of exactly the bytes its references denote. *)
+Theorem C01_digest_is_hash_of_bytes_shared_converters : forall ref bytes_of H r pl hp fl c,
+  In c (read_cmdlog (fst (oboot ref bytes_of H r pl hp fl))) ->
+  exists it, In it (concat (rflow ref (map hs_alg pl) fl)) /\ item_cmd ref bytes_of H it c.
+Proof. exact read_digest_is_hash_of_bytes. Qed.
+Print Assumptions C01_digest_is_hash_of_bytes_shared_converters.
+
+(** The digests a boot recorded still read the same after any later boot that goes
+    on with the same converter objects and the same memory (a caller that kept
+    CommandLog.Commands() of the earlier boot to re-execute it later). *)
+Theorem C01_recorded_digests_survive_later_boots : forall ref bytes_of H r pl hp fl r' fl',
+  let o := fst (oboot ref bytes_of H r pl hp fl) in
+  let o' := fst (oboot ref bytes_of H r' (o_pool o) (o_heap o) fl') in
+  map (deref (o_heap o')) (o_cdig o) = digests_of (cmdlog (s_tpm (o_sim o))) /\
+  map (deref (o_heap o')) (o_edig o) = map ev_digest (evlog (s_tpm (o_sim o))).
+Proof. exact recorded_digests_survive. Qed.
+Print Assumptions C01_recorded_digests_survive_later_boots.
+
+(** What [Hasher.Convert] returns depends on the algorithm of the object and on the
+    input only, not on what the object converted before, and is a new array. *)
+Theorem C01_hasher_convert_independent : forall H hp h inp,
+  hasher_convert H hp h inp = (hp ++ [H (hs_alg h) inp], mkHasher (hs_alg h) inp, length hp).
+Proof. exact hasher_convert_spec. Qed.
+Print Assumptions C01_hasher_convert_independent.
+
+(** The statements above are not vacuous: for a Hasher that keeps its result buffer
+    and returns it from every Convert (not the code; Model/BootSimObjs.v
+    [rhasher_convert]) the array recorded for a first conversion reads, after a
+    second one, as the digest of the second. *)
+Example C01_buffer_keeping_hasher_overwrites :
+  exists (H : Z -> list Z -> list Z) hp1 h1 a1 hp2 h2 a2,
+    rhasher_convert H [] (mkRHasher 4 None) [1] = (hp1, h1, a1) /\
+    rhasher_convert H hp1 h1 [2] = (hp2, h2, a2) /\
+    deref hp1 a1 = H 4 [1] /\ deref hp2 a1 <> H 4 [1] /\ deref hp2 a1 = H 4 [2] /\ a1 = a2.
+Proof. exact reusing_buffer_overwrites. Qed.
+
+(** A concrete boot: ONE SHA1 Hasher object (left with some running state by an
+    earlier conversion) converts the data of two TPM2_PCR_Extend-style measurements
+    and of one TPM2_PCR_Event-style measurement; the digests read after the boot are
+    the hashes of the respective data. *)
+Example C01_shared_converter_example :
+  let fl := [[IInitTPM 3 false];
+             [IExtend 0 (DS (mkData [[1; 2]] (Some 0))) ALG_SHA1; ILogAdd 0 ALG_SHA1 (toy_hash 4 [1; 2]) 7 None];
+             [IExtend 1 (DS (mkData [[5]; [6]] (Some 0))) ALG_SHA1; ILogAdd 1 ALG_SHA1 (toy_hash 4 [5; 6]) 7 None];
+             [IEvent 0 (DS (mkData [[9]] (Some 0))) 1 None]] in
+  let o := fst (oboot (list Z) lit_bytes toy_hash RNew [mkHasher 4 [7; 7; 7]] [] fl) in
+  read_cdig o = [toy_hash 4 [1; 2]; toy_hash 4 [1; 2]; toy_hash 4 [5; 6]; toy_hash 4 [5; 6];
+                 toy_hash 4 (toy_hash 4 [9]); toy_hash 4 (toy_hash 4 [9]);
+                 toy_hash 11 (toy_hash 4 [9]); toy_hash 11 (toy_hash 4 [9])] /\
+  map hs_state (o_pool o) = [[9]] /\ length (o_heap o) = 8%nat.
+Proof. vm_compute. repeat split. Qed.
 
 (** * Examples: the hypotheses are satisfiable by non-trivial values *)
 
